@@ -23,6 +23,10 @@ Also: `&&`, `!`, `true`/`false`, struct literals `Self { x, y, z: e }`, `is_one(
 `p.xy().map_or_else(Self::zero, |(x, y)| e)`, opaque `usize` parameters, `Self::f(..)` of translated
 static functions.  translate_all() is per-target best effort (a failing target keeps its previous
 generated definition).
+Phase 3 (`--table2`, TARGETS2 -> coq/Gen/GenField2.v; subset described in props/Gen/NOTES.md "Phase 3"):
+`let x;`, tuple `let`, `debug_assert!`, value `if` / `match bool` / blocks (class Lifter), `/ < <= ?`,
+`.sqrt() .legendre().is_qr() .expect()`, Option chains in return position, enum variants, point-level
+method calls (`mul_bigint`, `eq`, `neg`, `into_group`, `into`, `double`) in targets with group_ops.
 Semantics implemented: Copy values; operands evaluated left to right (a value operand is
 read when it is evaluated, a reference operand when the operation runs); `x op= e`
 evaluates e, then reads x; in-place methods (`square_in_place`, `double_in_place`,
@@ -2226,23 +2230,23 @@ TARGETS2 = [
                 H('ONE_OVER_COEFF_B_SQUARE', 'const', 'ksq_inv'), H('Z', 'const', 'z')] + TE_HOOKS),
     # ---- B: coordinate recovery (point decompression) and the sign flags
     dict(name='gen_sw_get_ys_from_x_unchecked', file=SWA, impl=r'impl<P: SWCurveConfig> Affine<P>', fn='get_ys_from_x_unchecked',
-         method=False, selfty='SWAffS', args=[('x', 'K', 'x')], ret='opt:PairK', hooks=[SQRT, LT] + SW_CURVE),
+         method=False, selfty='SWAffS', args=[('x', 'K', 'x')], ret='opt:PairK', hooks=[SQRT, LT, LE] + SW_CURVE),
     dict(name='gen_sw_get_point_from_x_unchecked', file=SWA, impl=r'impl<P: SWCurveConfig> Affine<P>',
          fn='get_point_from_x_unchecked', method=False, selfty='SWAffS', optchain=True,
-         args=[('x', 'K', 'x'), ('greatest', 'bool', 'greatest')], ret='opt:SWAffS', hooks=[SQRT, LT] + SW_CURVE),
+         args=[('x', 'K', 'x'), ('greatest', 'bool', 'greatest')], ret='opt:SWAffS', hooks=[SQRT, LT, LE] + SW_CURVE),
     dict(name='gen_sw_to_flags', file=SWA, impl=r'impl<P: SWCurveConfig> Affine<P>', fn='to_flags',
          selfty='SWAffS', selfparam='A', selfnames=['x', 'y', 'inf'], args=[], ret='enum:SWFlags',
-         enums={'SWFlags': 'SWFlags'}, hooks=[LE]),
+         enums={'SWFlags': 'SWFlags'}, hooks=[LT, LE]),
     dict(name='gen_te_get_xs_from_y_unchecked', file=TEA, impl=r'impl<P: TECurveConfig> Affine<P>', fn='get_xs_from_y_unchecked',
          method=False, selfty='TEAff', optchain=True, args=[('y', 'K', 'y')], ret='opt:PairK',
-         hooks=[SQRT, LE, H('COEFF_A', 'const', 'coeff_a'), H('COEFF_D', 'const', 'coeff_d')]),
+         hooks=[SQRT, LT, LE, H('COEFF_A', 'const', 'coeff_a'), H('COEFF_D', 'const', 'coeff_d')]),
     dict(name='gen_te_get_point_from_y_unchecked', file=TEA, impl=r'impl<P: TECurveConfig> Affine<P>',
          fn='get_point_from_y_unchecked', method=False, selfty='TEAff', optchain=True,
          args=[('y', 'K', 'y'), ('greatest', 'bool', 'greatest')], ret='opt:TEAff',
-         hooks=[SQRT, LE, H('COEFF_A', 'const', 'coeff_a'), H('COEFF_D', 'const', 'coeff_d')]),
+         hooks=[SQRT, LT, LE, H('COEFF_A', 'const', 'coeff_a'), H('COEFF_D', 'const', 'coeff_d')]),
     dict(name='gen_te_flags_from_x_coordinate', file='ec/src/models/twisted_edwards/serialization_flags.rs',
          impl=r'impl TEFlags', fn='from_x_coordinate', method=False, selfty=None, args=[('x', 'K', 'x')],
-         ret='enum:TEFlags', enums={'Self': 'TEFlags'}, hooks=[LE]),
+         ret='enum:TEFlags', enums={'Self': 'TEFlags'}, hooks=[LT, LE]),
     # ---- C: subgroup tests, cofactor clearing, endomorphisms (scalar multiplications are parameters)
     dict(name='gen_sw_aff_xy', file=SWA, impl=r'impl<P: SWCurveConfig> AffineRepr for Affine<P>', fn='xy',
          selfty='SWAffS', selfparam='A', selfnames=['x', 'y', 'inf'], args=[], ret='opt:PairK', hooks=[]),
